@@ -1698,17 +1698,24 @@ def series_pred_finding(case):
 class CHECK(Check):
     pid = "C12"
     technique = ("Lean 4 theorems (permutation / relabelling invariance of the MetricFrame, aggregate, fairness-metric and "
-                 "moment models) + compiled-driver correspondence of every entry point under all accepted container types "
-                 "and pandas index labels against the model evaluated on the positional zip")
+                 "moment models; a container model -- kind, index labels, payload, conversion, label-aligning placement -- whose "
+                 "conversion class per argument is lifted from the source on every run) + compiled-driver correspondence of "
+                 "every entry point and of the conversion glue itself under all accepted container types and pandas index "
+                 "labels against the model evaluated on the positional zip")
     level_text = ("PARTIAL BY NATURE. Theorems (all row lists, no size bound) cover the model half: by_group/overall are equal "
                   "tables for permuted rows for every permutation-invariant metric (proved for the whole metric pool; the index "
                   "and the slices' row multisets unconditionally); group_min/max/difference/ratio and the six named fairness "
                   "metrics are permutation invariant; Moment.index and gamma are invariant under a JOINT permutation of rows and "
                   "predictions, signed_weights travel with their rows; ErrorRate / BoundedGroupLoss likewise; a column-wise "
                   "injective relabelling renames exactly the index entries (Perm of the entry lists, arbitrary metric) and leaves "
-                  "all aggregates and fairness metrics unchanged when control labels are kept. Container types and pandas index "
-                  "labels do NOT exist in the model (it takes the positional zip as a List Row): that half of the property is "
-                  "covered by the correspondence check only — MetricFrame, the 6 fairness metrics, 5 parity moments + ErrorRate + "
+                  "all aggregates and fairness metrics unchanged when control labels are kept. Containers and index labels: "
+                  "Model/Container.lean + Generated/ContainerSites.lean (37 (entry point, argument, sink) sites with the "
+                  "conversion each argument passes through before a label-aligning pandas operation); containers_irrelevant: if "
+                  "every argument passes a label-dropping conversion the frame, hence any result, depends on the payloads only, "
+                  "for all kinds and labels; positional_pairing; lifted_sites_drop_labels (decide over the generated table; "
+                  "fails naming the site when an argument reaches a frame raw); raw_series_is_label_sensitive (necessity). "
+                  "Still correspondence-only: that the listed sites are ALL the paths (intra-procedural lifter) and pandas' "
+                  "reindexing itself — MetricFrame, the 6 fairness metrics, 5 parity moments + ErrorRate + "
                   "BoundedGroupLoss, ExponentiatedGradient, GridSearch, ThresholdOptimizer (fit and predict) under "
                   "list/ndarray/(n,1) ndarray/Series/DataFrame/dict containers with default, shuffled, offset, duplicated and "
                   "string index labels, compared with the list baseline, the compiled model and a Fraction oracle on the "
